@@ -19,6 +19,12 @@ Arguments N.of_nat : simpl never.
 
 Fixpoint pow128 (k : nat) : N := match k with O => 1 | S j => 128 * pow128 j end.
 
+Lemma lo7_mod : forall n, lo7 n = n mod 128.
+Proof. intros n. unfold lo7. change 127 with (N.ones 7). rewrite N.land_ones. reflexivity. Qed.
+
+Lemma hi7_div : forall n, hi7 n = n / 128.
+Proof. intros n. unfold hi7. rewrite N.shiftr_div_pow2. reflexivity. Qed.
+
 Lemma dec_enc_raw :
   forall fuel n first rest,
     n < pow128 (S fuel) -> (first = false -> n <> 0) ->
@@ -30,7 +36,7 @@ Proof.
     cbn [app varint_dec_raw]. rewrite E.
     destruct first; cbn [negb]; [rewrite andb_false_r; reflexivity|].
     destruct (n =? 0) eqn:Z; [specialize (Hnz eq_refl); lia|]. reflexivity.
-  - cbn [varint_enc_f].
+  - cbn [varint_enc_f]. rewrite lo7_mod, hi7_div.
     destruct (n <? 128) eqn:E.
     + cbn [app varint_dec_raw]. rewrite E.
       destruct first; cbn [negb]; [rewrite andb_false_r; reflexivity|].
@@ -71,7 +77,7 @@ Lemma enc_len_le : forall fuel n, (length (varint_enc_f fuel n) <= S fuel)%nat.
 Proof.
   induction fuel as [|f IH]; intros n; cbn [varint_enc_f];
     destruct (n <? 128); cbn [length]; try lia.
-  specialize (IH (n / 128)). lia.
+  specialize (IH (hi7 n)). lia.
 Qed.
 
 Lemma enc_len_pos : forall fuel n, (1 <= length (varint_enc_f fuel n))%nat.
@@ -84,6 +90,24 @@ Proof.
   intros n. unfold vlen, varint_enc.
   pose proof (enc_len_le 9 n). pose proof (enc_len_pos 9 n). lia.
 Qed.
+
+Lemma enc_len_mono :
+  forall fuel x y, x <= y -> (length (varint_enc_f fuel x) <= length (varint_enc_f fuel y))%nat.
+Proof.
+  induction fuel as [|f IH]; intros x y H; cbn [varint_enc_f].
+  - destruct (x <? 128); destruct (y <? 128); cbn [length]; lia.
+  - destruct (x <? 128) eqn:Ex; destruct (y <? 128) eqn:Ey; cbn [length]; try lia.
+    specialize (IH (hi7 x) (hi7 y) ltac:(rewrite !hi7_div; apply N.div_le_mono; lia)). lia.
+Qed.
+
+Lemma vlen_mono : forall x y, x <= y -> vlen x <= vlen y.
+Proof. intros x y H. unfold vlen, varint_enc. pose proof (enc_len_mono 9 x y H). lia. Qed.
+
+Lemma blk_mlen_mono : forall x y, x <= y -> blk_mlen x <= blk_mlen y.
+Proof. intros x y H. unfold blk_mlen. lia. Qed.
+
+Lemma req_mlen_mono : forall x y, x <= y -> req_mlen x <= req_mlen y.
+Proof. intros x y H. unfold req_mlen. pose proof (vlen_mono x y H). lia. Qed.
 
 (* ------------------------------------------------------------------ Prefix *)
 
@@ -250,18 +274,21 @@ Section BatchingProofs.
   Variable A : Type.
   Variable dlen : A -> N.
   Variable elen : A -> N.
+  Variable mlen : N -> N.
   Variable mb : N.
   Variable mm : N.
+  (* a message does not get shorter when its entries take more bytes *)
+  Hypothesis mlen_mono : forall x y, x <= y -> mlen x <= mlen y.
 
-  Notation fits := (fits A dlen elen mb mm).
-  Notation drop_unfit := (drop_unfit A dlen elen mb mm).
-  Notation take_batch := (take_batch A dlen elen mb mm).
-  Notation extract_next_batch := (extract_next_batch A dlen elen mb mm).
-  Notation batches := (batches A dlen elen mb mm).
-  Notation all_batches := (all_batches A dlen elen mb mm).
-  Notation message_len := (message_len A elen).
-  Notation sendable := (sendable A elen mm).
-  Notation sent_batches := (sent_batches A dlen elen mb mm).
+  Notation fits := (fits A dlen elen mlen mb mm).
+  Notation drop_unfit := (drop_unfit A dlen elen mlen mb mm).
+  Notation take_batch := (take_batch A dlen elen mlen mb mm).
+  Notation extract_next_batch := (extract_next_batch A dlen elen mlen mb mm).
+  Notation batches := (batches A dlen elen mlen mb mm).
+  Notation all_batches := (all_batches A dlen elen mlen mb mm).
+  Notation message_len := (message_len A elen mlen).
+  Notation sendable := (sendable A elen mlen mm).
+  Notation sent_batches := (sent_batches A dlen elen mlen mb mm).
 
   Definition dsum (b : list A) : N := sum (map dlen b).
   Definition esum (b : list A) : N := sum (map elen b).
@@ -288,34 +315,39 @@ Section BatchingProofs.
   Qed.
 
   Lemma take_batch_spec :
-    forall l tot msg b r,
-      take_batch tot msg l = (b, r) ->
-      EMPTY_MESSAGE_LEN <= msg ->
-      l = b ++ r /\ (tot <= mb -> tot + dsum b <= mb) /\ (msg <= mm -> msg + esum b <= mm) /\
+    forall l tot acc b r,
+      take_batch tot acc l = (b, r) ->
+      l = b ++ r /\ (tot <= mb -> tot + dsum b <= mb) /\
+      (b <> [] -> mlen (acc + esum b) <= mm) /\
       Forall (fun a => fits a = true) b.
   Proof.
-    induction l as [|a t IH]; intros tot msg b r H Hm; cbn [Model.take_batch] in H.
-    - inversion H; subst. unfold dsum, esum. cbn. repeat split; try lia. constructor.
-    - destruct ((mb <? tot + dlen a) || (mm <? msg + elen a)) eqn:E.
-      + inversion H; subst. unfold dsum, esum. cbn. repeat split; try lia. constructor.
-      + destruct (take_batch (tot + dlen a) (msg + elen a) t) as [b0 r0] eqn:ET.
+    induction l as [|a t IH]; intros tot acc b r H; cbn [Model.take_batch] in H.
+    - inversion H; subst. unfold dsum, esum. cbn. repeat split; try lia; try congruence. constructor.
+    - destruct ((mb <? tot + dlen a) || (mm <? mlen (acc + elen a))) eqn:E.
+      + inversion H; subst. unfold dsum, esum. cbn. repeat split; try lia; try congruence. constructor.
+      + destruct (take_batch (tot + dlen a) (acc + elen a) t) as [b0 r0] eqn:ET.
         inversion H; subst.
-        apply IH in ET; [|lia]. destruct ET as (E1 & E2 & E3 & E4).
+        apply IH in ET. destruct ET as (E1 & E2 & E3 & E4).
         apply orb_false_iff in E. destruct E as [Ea Eb].
         unfold dsum, esum in *. cbn [map sum app].
-        repeat split.
-        * f_equal. exact E1.
+        split; [f_equal; exact E1|]. split; [|split].
         * intros _. specialize (E2 ltac:(lia)). lia.
-        * intros _. specialize (E3 ltac:(lia)). lia.
-        * constructor; [|exact E4]. unfold Model.fits. unfold EMPTY_MESSAGE_LEN in *. lia.
+        * intros _. destruct b0 as [|x b0].
+          -- cbn [map sum]. replace (acc + (elen a + 0)) with (acc + elen a) by lia. lia.
+          -- specialize (E3 ltac:(discriminate)).
+             replace (acc + (elen a + sum (map elen (x :: b0)))) with (acc + elen a + sum (map elen (x :: b0))) by lia.
+             exact E3.
+        * constructor; [|exact E4]. unfold Model.fits.
+          pose proof (mlen_mono (elen a) (acc + elen a) ltac:(lia)). lia.
   Qed.
 
   Lemma take_batch_nonempty :
-    forall a t, fits a = true -> exists b r, take_batch 0 EMPTY_MESSAGE_LEN (a :: t) = (a :: b, r).
+    forall a t, fits a = true -> exists b r, take_batch 0 0 (a :: t) = (a :: b, r).
   Proof.
     intros a t H. cbn [Model.take_batch]. unfold Model.fits in H.
-    destruct ((mb <? 0 + dlen a) || (mm <? EMPTY_MESSAGE_LEN + elen a)) eqn:E; [lia|].
-    destruct (take_batch (0 + dlen a) (EMPTY_MESSAGE_LEN + elen a) t) as [b r]. eauto.
+    replace (0 + elen a) with (elen a) by lia.
+    destruct ((mb <? 0 + dlen a) || (mm <? mlen (elen a))) eqn:E; [lia|].
+    destruct (take_batch (0 + dlen a) (elen a) t) as [b r]. eauto.
   Qed.
 
   Lemma filter_fits_all : forall b, Forall (fun a => fits a = true) b -> filter fits b = b.
@@ -334,19 +366,20 @@ Section BatchingProofs.
     destruct (drop_unfit_spec l) as (pre & H1 & H2 & _).
     destruct (drop_unfit l) as [|a t] eqn:ED; [discriminate|].
     intros H.
-    assert (HT : take_batch 0 EMPTY_MESSAGE_LEN (a :: t) = (b, r)) by congruence. clear H.
+    assert (HT : take_batch 0 0 (a :: t) = (b, r)) by congruence. clear H.
     pose proof (drop_unfit_head _ _ _ ED) as Hf.
     destruct (take_batch_nonempty a t Hf) as (b0 & r0 & HN).
     rewrite HN in HT. inversion HT; subst b r.
-    apply take_batch_spec in HN; [|lia]. destruct HN as (E1 & E2 & E3 & E4).
+    apply take_batch_spec in HN. destruct HN as (E1 & E2 & E3 & E4).
     exists pre. repeat split.
     - rewrite H1. f_equal. exact E1.
     - exact H2.
     - discriminate.
     - exact E4.
     - specialize (E2 ltac:(lia)). lia.
-    - unfold Model.message_len. unfold Model.fits in Hf. specialize (E3 ltac:(lia)).
-      unfold esum in E3. lia.
+    - unfold Model.message_len. specialize (E3 ltac:(discriminate)).
+      unfold esum in E3. replace (0 + sum (map elen (a :: b0))) with (sum (map elen (a :: b0))) in E3 by lia.
+      exact E3.
   Qed.
 
   Lemma extract_none : forall l, extract_next_batch l = None -> filter fits l = [].
@@ -420,23 +453,27 @@ Section BatchingProofs.
     forall l, Forall (fun b => b <> [] /\ dsum b <= mb /\ message_len b <= mm) (sent_batches l).
   Proof. intros l. rewrite sent_is_all. apply batches_bounds. Qed.
 
-  (* greedy: a batch is closed only by the end of the queue or by a block that does not go in *)
+  (* greedy: a batch is closed only by the end of the queue or by an entry that does not go in *)
   Lemma take_batch_maximal :
-    forall l tot msg b r, take_batch tot msg l = (b, r) ->
+    forall l tot acc b r, take_batch tot acc l = (b, r) ->
       match r with
       | [] => True
-      | a :: _ => mb < tot + dsum b + dlen a \/ mm < msg + esum b + elen a
+      | a :: _ => mb < tot + dsum b + dlen a \/ mm < mlen (acc + esum b + elen a)
       end.
   Proof.
-    induction l as [|a t IH]; intros tot msg b r H; cbn [Model.take_batch] in H.
+    induction l as [|a t IH]; intros tot acc b r H; cbn [Model.take_batch] in H.
     - inversion H; subst. exact I.
-    - destruct ((mb <? tot + dlen a) || (mm <? msg + elen a)) eqn:E.
+    - destruct ((mb <? tot + dlen a) || (mm <? mlen (acc + elen a))) eqn:E.
       + inversion H; subst. unfold dsum, esum. cbn [map sum].
-        apply orb_true_iff in E. lia.
-      + destruct (take_batch (tot + dlen a) (msg + elen a) t) as [b0 r0] eqn:ET.
-        inversion H; subst. apply IH in ET. destruct r; [exact I|].
-        unfold dsum, esum in *. cbn [map sum]. lia.
+        apply orb_true_iff in E. replace (acc + 0 + elen a) with (acc + elen a) by lia. lia.
+      + destruct (take_batch (tot + dlen a) (acc + elen a) t) as [b0 r0] eqn:ET.
+        inversion H; subst. apply IH in ET. destruct r as [|x r]; [exact I|].
+        unfold dsum, esum in *. cbn [map sum].
+        replace (tot + (dlen a + sum (map dlen b0)) + dlen x) with (tot + dlen a + sum (map dlen b0) + dlen x) by lia.
+        replace (acc + (elen a + sum (map elen b0)) + elen x) with (acc + elen a + sum (map elen b0) + elen x) by lia.
+        exact ET.
   Qed.
+
 End BatchingProofs.
 
 (* ------------------------------------------------------------------ the shipped constants *)
@@ -458,10 +495,10 @@ Qed.
 
 Lemma default_fits :
   forall b,
-    fits sblock sb_dlen sb_elen Consts.BITSWAP_MAX_BATCH_SIZE Consts.BITSWAP_MAX_MESSAGE_SIZE b =
+    fits sblock sb_dlen sb_elen blk_mlen Consts.BITSWAP_MAX_BATCH_SIZE Consts.BITSWAP_MAX_MESSAGE_SIZE b =
     (sb_dlen b <=? Consts.BITSWAP_MAX_BATCH_SIZE).
 Proof.
-  intros b. unfold fits. pose proof (sb_elen_le b) as H.
+  intros b. unfold fits, blk_mlen. pose proof (sb_elen_le b) as H.
   unfold Consts.BITSWAP_MAX_BATCH_SIZE, Consts.BITSWAP_MAX_MESSAGE_SIZE, EMPTY_MESSAGE_LEN in *.
   destruct (sb_dlen b <=? 2097152) eqn:E; cbn [andb]; [|reflexivity].
   destruct (2 + sb_elen b <=? 4194304) eqn:E2; [reflexivity|lia].
@@ -472,7 +509,7 @@ Lemma default_partition :
     concat (send_response_blocks Consts.BITSWAP_MAX_BATCH_SIZE Consts.BITSWAP_MAX_MESSAGE_SIZE l) =
     filter (fun b => sb_dlen b <=? Consts.BITSWAP_MAX_BATCH_SIZE) l.
 Proof.
-  intros l. unfold send_response_blocks. rewrite sent_partition.
+  intros l. unfold send_response_blocks. rewrite sent_partition by exact blk_mlen_mono.
   apply filter_ext. exact default_fits.
 Qed.
 
@@ -492,16 +529,16 @@ Proof. reflexivity. Qed.
 Lemma payload_bound_insufficient :
   forall mb mm, 10 <= mm ->
     exists l : list sblock,
-      Forall (fun b => fits sblock sb_dlen sb_elen mb mm b = true) l /\
+      Forall (fun b => fits sblock sb_dlen sb_elen blk_mlen mb mm b = true) l /\
       sum (map sb_dlen l) <= mb /\
-      mm < message_len sblock sb_elen l.
+      mm < message_len sblock sb_elen blk_mlen l.
 Proof.
   intros mb mm H. exists (repeat tiny_block (S (N.to_nat mm))). split; [|split].
   - apply Forall_forall. intros x Hx. apply repeat_spec in Hx. subst x.
-    unfold fits. rewrite tiny_elen. unfold EMPTY_MESSAGE_LEN.
+    unfold fits, blk_mlen. rewrite tiny_elen. unfold EMPTY_MESSAGE_LEN.
     change (sb_dlen tiny_block) with 0. lia.
   - rewrite sum_repeat. change (sb_dlen tiny_block) with 0. lia.
-  - unfold message_len. rewrite sum_repeat, tiny_elen. unfold EMPTY_MESSAGE_LEN. lia.
+  - unfold message_len, blk_mlen. rewrite sum_repeat, tiny_elen. unfold EMPTY_MESSAGE_LEN. lia.
 Qed.
 
 (* ------------------------------------------------------------------ CID bytes *)
@@ -924,9 +961,9 @@ Qed.
 
 Lemma default_presence_fits :
   forall p, (length (c_digest (sp_cid p)) <= 64)%nat ->
-    fits spres (fun _ => 0) sp_elen 0 Consts.BITSWAP_MAX_MESSAGE_SIZE p = true.
+    fits spres (fun _ => 0) sp_elen blk_mlen 0 Consts.BITSWAP_MAX_MESSAGE_SIZE p = true.
 Proof.
-  intros p H. unfold fits, sp_elen.
+  intros p H. unfold fits, blk_mlen, sp_elen.
   pose proof (presence_elen_le (N.of_nat (length (cid_to_bytes (sp_cid p)))) (presence_code (sp_type p))).
   pose proof (cid_bytes_len_le (sp_cid p)).
   unfold Consts.BITSWAP_MAX_MESSAGE_SIZE, EMPTY_MESSAGE_LEN in *. cbn [andb N.leb]. lia.
@@ -942,7 +979,7 @@ Lemma default_presences_all_sent :
   forall l, Forall (fun p => (length (c_digest (sp_cid p)) <= 64)%nat) l ->
     concat (send_response_presences Consts.BITSWAP_MAX_MESSAGE_SIZE l) = l.
 Proof.
-  intros l H. unfold send_response_presences. rewrite sent_partition.
+  intros l H. unfold send_response_presences. rewrite sent_partition by exact blk_mlen_mono.
   apply filter_all_true. eapply Forall_impl; [|exact H]. intros p Hp. apply default_presence_fits. exact Hp.
 Qed.
 
@@ -961,13 +998,13 @@ Qed.
 Lemma unsplit_presences_insufficient :
   forall mm, 42 <= mm ->
     exists l : list spres,
-      Forall (fun p => fits spres (fun _ => 0) sp_elen 0 mm p = true) l /\
-      mm < message_len spres sp_elen l.
+      Forall (fun p => fits spres (fun _ => 0) sp_elen blk_mlen 0 mm p = true) l /\
+      mm < message_len spres sp_elen blk_mlen l.
 Proof.
   intros mm H. exists (repeat tiny_presence (S (N.to_nat mm))). split.
   - apply Forall_forall. intros x Hx. apply repeat_spec in Hx. subst x.
-    unfold fits. rewrite tiny_presence_elen. unfold EMPTY_MESSAGE_LEN. cbn [andb N.leb]. lia.
-  - unfold message_len. rewrite sum_repeat_gen, tiny_presence_elen. unfold EMPTY_MESSAGE_LEN. lia.
+    unfold fits, blk_mlen. rewrite tiny_presence_elen. unfold EMPTY_MESSAGE_LEN. cbn [andb N.leb]. lia.
+  - unfold message_len, blk_mlen. rewrite sum_repeat_gen, tiny_presence_elen. unfold EMPTY_MESSAGE_LEN. lia.
 Qed.
 
 (* ------------------------------------------------------------------ writing to substreams *)
@@ -1015,10 +1052,10 @@ Proof.
   intros mb mm ps bs. cbn [action_msgs]. apply Forall_app. split; apply Forall_forall; intros m Hm;
     apply in_map_iff in Hm; destruct Hm as (l & E & Hl); subst m; cbn [omsg_len].
   - unfold send_response_presences in Hl.
-    pose proof (sent_bounds spres (fun _ => 0) sp_elen 0 mm ps) as HB.
+    pose proof (sent_bounds spres (fun _ => 0) sp_elen blk_mlen 0 mm blk_mlen_mono ps) as HB.
     rewrite Forall_forall in HB. apply HB in Hl. tauto.
   - unfold send_response_blocks in Hl.
-    pose proof (sent_bounds sblock sb_dlen sb_elen mb mm bs) as HB.
+    pose proof (sent_bounds sblock sb_dlen sb_elen blk_mlen mb mm blk_mlen_mono bs) as HB.
     rewrite Forall_forall in HB. apply HB in Hl. tauto.
 Qed.
 
@@ -1045,17 +1082,17 @@ Proof. intros. induction l as [|x l IH]; [reflexivity|]. cbn [flat_map map conca
 Lemma response_lossless :
   forall mb mm ps bs,
     flat_map omsg_presences (action_msgs mb mm (AResponse ps bs)) =
-      filter (fits spres (fun _ => 0) sp_elen 0 mm) ps /\
+      filter (fits spres (fun _ => 0) sp_elen blk_mlen 0 mm) ps /\
     flat_map omsg_blocks (action_msgs mb mm (AResponse ps bs)) =
-      filter (fits sblock sb_dlen sb_elen mb mm) bs.
+      filter (fits sblock sb_dlen sb_elen blk_mlen mb mm) bs.
 Proof.
   intros mb mm ps bs. cbn [action_msgs]. rewrite !flat_map_app. split.
   - rewrite (flat_map_map_nil OBlocks omsg_presences) by reflexivity. rewrite app_nil_r.
     rewrite flat_map_concat_map, map_map. cbn [omsg_presences]. rewrite map_id.
-    unfold send_response_presences. apply sent_partition.
+    unfold send_response_presences. apply sent_partition. exact blk_mlen_mono.
   - rewrite (flat_map_map_nil OPresences omsg_blocks) by reflexivity. cbn [app].
     rewrite flat_map_concat_map, map_map. cbn [omsg_blocks]. rewrite map_id.
-    unfold send_response_blocks. apply sent_partition.
+    unfold send_response_blocks. apply sent_partition. exact blk_mlen_mono.
 Qed.
 
 (* over a substream that takes everything the whole response goes out *)
@@ -1081,3 +1118,673 @@ Proof.
     rewrite flat_map_concat_map, map_map, <- flat_map_concat_map. reflexivity.
   - apply write_msgs_spec in H. destruct H as (tail & E & _). exists tail. exact E.
 Qed.
+
+(* ------------------------------------------------------------------ requests: one message, whatever its size *)
+
+(* send_request builds ONE message with all wants *)
+Lemma request_single_message :
+  forall mb mm cids,
+    action_msgs mb mm (ARequest cids) = [ORequest cids] /\ omsg_len (ORequest cids) = request_len cids.
+Proof. intros. split; reflexivity. Qed.
+
+(* an empty request is a message with an empty wantlist, two bytes *)
+Lemma request_empty_len : request_len [] = 2.
+Proof. reflexivity. Qed.
+
+Lemma want_elen_le : forall cidlen t, want_elen cidlen t <= 26 + cidlen.
+Proof.
+  intros cidlen t. unfold want_elen, field_len.
+  pose proof (vlen_bounds cidlen).
+  destruct (cidlen =? 0); destruct (t =? 0);
+    match goal with |- context [vlen (?a + ?b)] => pose proof (vlen_bounds (a + b)) end; lia.
+Qed.
+
+Lemma sw_elen_le : forall cw, (length (c_digest (fst cw)) <= 64)%nat -> sw_elen cw <= 130.
+Proof.
+  intros cw H. unfold sw_elen.
+  pose proof (want_elen_le (N.of_nat (length (cid_to_bytes (fst cw)))) (want_code (snd cw))).
+  pose proof (cid_bytes_len_le (fst cw)). lia.
+Qed.
+
+Lemma sum_le_const :
+  forall {X} (f : X -> N) k l, Forall (fun x => f x <= k) l -> sum (map f l) <= N.of_nat (length l) * k.
+Proof.
+  intros X f k l H. induction H as [|x l Hx _ IH]; [cbn; lia|].
+  cbn [map sum length]. lia.
+Qed.
+
+Lemma req_mlen_ge : forall s, s < req_mlen s.
+Proof. intros s. unfold req_mlen. pose proof (vlen_bounds s). lia. Qed.
+
+Lemma req_mlen_le : forall s, req_mlen s <= 11 + s.
+Proof. intros s. unfold req_mlen. pose proof (vlen_bounds s). lia. Qed.
+
+(* with the shipped limit a request of up to 32 000 wants (multihashes of at most 64 bytes) is
+   within the limit, whatever the CIDs *)
+Lemma default_request_fits :
+  forall cids, Forall (fun cw => (length (c_digest (fst cw)) <= 64)%nat) cids ->
+    N.of_nat (length cids) <= 32000 -> request_len cids <= Consts.BITSWAP_MAX_MESSAGE_SIZE.
+Proof.
+  intros cids H Hn. unfold request_len, message_len.
+  assert (Hs : sum (map sw_elen cids) <= N.of_nat (length cids) * 130).
+  { apply sum_le_const. eapply Forall_impl; [|exact H]. intros cw Hc. apply sw_elen_le. exact Hc. }
+  pose proof (req_mlen_le (sum (map sw_elen cids))).
+  unfold Consts.BITSWAP_MAX_MESSAGE_SIZE. lia.
+Qed.
+
+(* OBSERVATION (outside the property text, which speaks of responses): the request is never split,
+   so for every limit there is a request — each want of which would fit a message — whose single
+   message is too long *)
+Definition tiny_want : cid * want_type := (mkCid 1 85 18 (repeat 0 32%nat), WBlock).
+
+Lemma tiny_want_elen : sw_elen tiny_want = 42.
+Proof. reflexivity. Qed.
+
+Lemma unsplit_request_insufficient :
+  forall mm, 53 <= mm ->
+    exists cids : list (cid * want_type),
+      Forall (fun cw => req_mlen (sw_elen cw) <= mm) cids /\ mm < request_len cids.
+Proof.
+  intros mm H. exists (repeat tiny_want (S (N.to_nat mm))). split.
+  - apply Forall_forall. intros x Hx. apply repeat_spec in Hx. subst x.
+    rewrite tiny_want_elen. pose proof (req_mlen_le 42). lia.
+  - unfold request_len, message_len. rewrite sum_repeat_gen, tiny_want_elen.
+    pose proof (req_mlen_ge (N.of_nat (S (N.to_nat mm)) * 42)). lia.
+Qed.
+
+(* such a request is refused by the codec's size check: send_request writes nothing and fails,
+   whatever the substream *)
+Lemma oversized_request_refused :
+  forall mb mm cids c, mm < request_len cids ->
+    write_msgs mm c (action_msgs mb mm (ARequest cids)) = ([], 0, c, false).
+Proof.
+  intros mb mm cids c H. cbn [action_msgs write_msgs omsg_len].
+  destruct (mm <? request_len cids) eqn:E; [reflexivity|apply N.ltb_ge in E; lia].
+Qed.
+
+(* a request within the limit goes out whole over a substream that takes it *)
+Lemma request_written_healthy :
+  forall mb mm cids, request_len cids <= mm ->
+    write_msgs mm None (action_msgs mb mm (ARequest cids)) = ([ORequest cids], 0, None, true).
+Proof.
+  intros mb mm cids H. apply write_msgs_healthy. constructor; [exact H|constructor].
+Qed.
+
+(* a command that the codec will not refuse: a response always (batching), a request when its one
+   message is within the limit *)
+Definition action_ok (mm : N) (a : action) : Prop :=
+  match a with ARequest cids => request_len cids <= mm | AResponse _ _ => True end.
+
+Lemma action_msgs_within_limit :
+  forall mb mm a, action_ok mm a -> Forall (fun m => omsg_len m <= mm) (action_msgs mb mm a).
+Proof.
+  intros mb mm [cids|ps bs] H; [constructor; [exact H|constructor]|apply response_msgs_within_limit].
+Qed.
+
+Definition omsg_wants (m : omsg) : list (cid * want_type) := match m with ORequest l => l | _ => [] end.
+
+
+(* ------------------------------------------------------------------ the event loop *)
+
+Lemma write_actions_spec :
+  forall mb mm acts c done part c' ok,
+    write_actions mb mm c acts = (done, part, c', ok) ->
+    exists rest,
+      flat_map (action_msgs mb mm) acts = done ++ rest /\
+      (ok = true -> rest = [] /\ part = 0) /\
+      (ok = false -> rest <> []) /\
+      Forall (fun m => omsg_len m <= mm) done.
+Proof.
+  intros mb mm. induction acts as [|a t IH]; intros c done part c' ok H; cbn [write_actions] in H.
+  - inversion H; subst. exists []. repeat split; try reflexivity; try discriminate. constructor.
+  - destruct (write_msgs mm c (action_msgs mb mm a)) as [[[d1 p1] c1] o1] eqn:E1.
+    apply write_msgs_spec in E1. destruct E1 as (r1 & A1 & A2 & A3 & A4).
+    destruct o1.
+    + destruct (write_actions mb mm c1 t) as [[[d2 p2] c2] o2] eqn:E2.
+      inversion H; subst. apply IH in E2. destruct E2 as (r2 & B1 & B2 & B3 & B4).
+      destruct (A2 eq_refl) as [-> _]. exists r2. cbn [flat_map]. rewrite A1, B1, app_nil_r, app_assoc.
+      split; [reflexivity|]. split; [exact B2|]. split; [exact B3|]. apply Forall_app. split; assumption.
+    + inversion H; subst. exists (r1 ++ flat_map (action_msgs mb mm) t). cbn [flat_map].
+      rewrite A1, app_assoc. split; [reflexivity|]. split; [discriminate|]. split; [|exact A4].
+      intros _ E. apply app_eq_nil in E. destruct E as [E _]. exact (A3 eq_refl E).
+Qed.
+
+Lemma write_actions_healthy :
+  forall mb mm acts, Forall (action_ok mm) acts ->
+    write_actions mb mm None acts = (flat_map (action_msgs mb mm) acts, 0, None, true).
+Proof.
+  intros mb mm acts Hok. induction Hok as [|a t Ha _ IH]; [reflexivity|].
+  cbn [write_actions flat_map]. rewrite write_msgs_healthy by (apply action_msgs_within_limit; exact Ha).
+  rewrite IH. reflexivity.
+Qed.
+
+(* a queue flushed to a fresh substream stops at an oversized request: what stands before it is
+   written, the request and everything behind it is not *)
+Lemma write_actions_oversized :
+  forall mb mm c pre cids rest, Forall (action_ok mm) pre -> mm < request_len cids ->
+    write_actions mb mm None (pre ++ ARequest cids :: rest) =
+    (flat_map (action_msgs mb mm) pre, 0, None, false) /\
+    (pre = [] -> write_actions mb mm c (ARequest cids :: rest) = ([], 0, c, false)).
+Proof.
+  intros mb mm c pre cids rest Hok Hbig. split.
+  - induction Hok as [|a t Ha _ IH].
+    + cbn [app write_actions flat_map]. rewrite oversized_request_refused by exact Hbig. reflexivity.
+    + cbn [app write_actions flat_map].
+      rewrite write_msgs_healthy by (apply action_msgs_within_limit; exact Ha). rewrite IH. reflexivity.
+  - intros _. cbn [write_actions]. rewrite oversized_request_refused by exact Hbig. reflexivity.
+Qed.
+
+Section NodeProofs.
+  Variable D : Type.
+  Variable digest : N -> D -> option (list N).
+  Variable mb : N.
+  Variable mm : N.
+
+  Notation peer_step := (peer_step D digest mb mm).
+  Notation run_peer := (run_peer D digest mb mm).
+  Notation node_step := (node_step D digest mb mm).
+  Notation run_node_ops := (run_node_ops D digest mb mm).
+  Notation pev := (pev D).
+
+  (* ---- what a step may tell the user and write ---- *)
+
+  (* BitswapEvents come from complete inbound frames on an open inbound substream and from
+     nothing else: no command, failure, timeout, dial result or connection event is reported *)
+  Lemma events_only_from_frames :
+    forall s e s' evs w, peer_step s e = (s', (evs, w)) -> evs <> [] ->
+      exists m, e = PInFrame m /\ ps_inb s = true /\ evs = msg_events D digest m /\ s' = s.
+  Proof.
+    intros s e s' evs w H Hne. destruct e; cbn [Model.peer_step] in H;
+      try (inversion H; subst; congruence).
+    - destruct (ps_inb s) eqn:E; inversion H; subst; [|congruence]. exists m. auto.
+    - destruct (send_action mb mm s a) as [s1 w1]. inversion H; subst. congruence.
+    - destruct (outbound_opened mb mm s c) as [s1 w1]. inversion H; subst. congruence.
+  Qed.
+
+  (* every message the loop writes, in any state, passes the codec's size check *)
+  Lemma written_within_limit :
+    forall s e s' evs done part, peer_step s e = (s', (evs, (done, part))) ->
+      Forall (fun m => omsg_len m <= mm) done.
+  Proof.
+    intros s e s' evs done part H. destruct e; cbn [Model.peer_step] in H;
+      try (inversion H; subst; constructor).
+    - unfold send_action in H. destruct (ps_out s) as [c|].
+      + destruct (write_msgs mm c (action_msgs mb mm a)) as [[[d1 p1] c1] o1] eqn:E.
+        apply write_msgs_spec in E. destruct E as (r & _ & _ & _ & A).
+        destruct o1; inversion H; subst; exact A.
+      + inversion H; subst. constructor.
+    - unfold outbound_opened in H. destruct (ps_opening s).
+      + destruct (write_actions mb mm c (ps_pend s)) as [[[d1 p1] c1] o1] eqn:E.
+        apply write_actions_spec in E. destruct E as (r & _ & _ & _ & A). inversion H; subst. exact A.
+      + inversion H; subst. constructor.
+  Qed.
+
+  (* only commands and a freshly opened outbound substream make the loop write *)
+  Lemma writes_only_on_send_or_open :
+    forall s e s' evs done part, peer_step s e = (s', (evs, (done, part))) ->
+      (done <> [] \/ part <> 0) -> (exists a, e = PSend a) \/ (exists c, e = POutOpen c).
+  Proof.
+    intros s e s' evs done part H Hw. destruct e; cbn [Model.peer_step] in H;
+      try (inversion H; subst; destruct Hw; congruence); eauto.
+  Qed.
+
+  (* ---- the queue invariant ---- *)
+
+  (* queued actions always wait for exactly one thing that the service will answer — the
+     requested substream or the dial — and never sit in the queue without one (a queue that
+     nothing will ever flush would make the loop ignore the peer: later commands are only
+     appended to it) *)
+  Definition ps_inv (s : pstate) : Prop :=
+    (ps_pend s <> [] <-> ps_opening s = true \/ ps_dial s = true) /\
+    (ps_opening s = true -> ps_dial s = false) /\
+    (ps_conn s = 0 -> ps_inb s = false /\ ps_out s = None /\ ps_opening s = false) /\
+    (ps_dial s = true -> ps_conn s <> 1) /\
+    ps_conn s <= 2.
+
+  Ltac pinv :=
+    repeat split; intros; try tauto; try congruence; try lia;
+    try (match goal with H : _ \/ _ |- _ => destruct H end; try congruence; try discriminate).
+
+  Lemma ps_inv_init : ps_inv ps_init.
+  Proof.
+    unfold ps_inv, ps_init. cbn. repeat split; try discriminate; try lia; try tauto.
+    all: try (intros [H|H]; discriminate).
+  Qed.
+
+  Lemma app_not_nil : forall {X} (l : list X) x, l ++ [x] <> [].
+  Proof. intros X l x E. apply app_eq_nil in E. destruct E as [_ E]. discriminate. Qed.
+
+  Lemma ps_inv_queue :
+    forall s a, ps_inv s -> ps_inv (queue_action s a).
+  Proof.
+    intros [inb out pend opening conn dial mgr] a (H1 & H2 & H3 & H4 & H5).
+    unfold queue_action, open_or_dial, ps_inv in *. cbn in *.
+    destruct pend as [|x pend].
+    - assert (opening = false /\ dial = false) as [-> ->].
+      { destruct opening, dial; try tauto; exfalso; apply (proj2 H1); auto. }
+      cbn. destruct (conn =? 1) eqn:E1; cbn.
+      + repeat split; try tauto; try discriminate; try lia; auto.
+      + destruct ((mgr =? 1) || (mgr =? 3)); cbn.
+        * repeat split; try tauto; try discriminate; try lia; auto.
+        * repeat split; try tauto; try discriminate; try lia.
+          all: try (intros [H|H]; discriminate).
+    - cbn. repeat split; try tauto; try discriminate.
+      all: try (intros _; apply H1; discriminate).
+  Qed.
+
+  Lemma ps_inv_set_out :
+    forall s o, ps_inv s -> (o <> None -> ps_conn s <> 0) -> ps_inv (set_out s o).
+  Proof.
+    intros [inb out pend opening conn dial mgr] o (H1 & H2 & H3 & H4 & H5) Ho.
+    unfold ps_inv in *. cbn in *. repeat split; try tauto.
+    destruct o; [exfalso; apply Ho; [discriminate|assumption]|reflexivity].
+  Qed.
+
+  Lemma ps_inv_step : forall s e, ps_inv s -> ps_inv (fst (peer_step s e)).
+  Proof.
+    intros s e Hs. destruct e; cbn [Model.peer_step fst].
+    - (* PInOpen *)
+      destruct s as [inb out pend opening conn dial mgr]. destruct Hs as (H1 & H2 & H3 & H4 & H5).
+      unfold ps_inv in *. cbn in *. destruct (conn =? 0) eqn:E; cbn; repeat split; try tauto; lia.
+    - exact Hs.
+    - (* PInBad *)
+      destruct s as [inb out pend opening conn dial mgr]. destruct Hs as (H1 & H2 & H3 & H4 & H5).
+      unfold ps_inv in *. cbn in *. repeat split; tauto.
+    - (* PSend *)
+      unfold send_action. destruct (ps_out s) as [c|] eqn:Eo.
+      + destruct (write_msgs mm c (action_msgs mb mm a)) as [[[d1 p1] c1] o1].
+        assert (Hc : ps_conn s <> 0).
+        { intros E. destruct Hs as (_ & _ & H3 & _). apply H3 in E. destruct E as (_ & E & _). congruence. }
+        destruct o1; cbn [fst].
+        * apply ps_inv_set_out; auto.
+        * apply ps_inv_queue. apply ps_inv_set_out; [exact Hs|congruence].
+      + cbn [fst]. apply ps_inv_queue. exact Hs.
+    - (* POutOpen *)
+      unfold outbound_opened. destruct (ps_opening s) eqn:Eop; [|exact Hs].
+      destruct (write_actions mb mm c (ps_pend s)) as [[[d1 p1] c1] o1]. cbn [fst].
+      destruct s as [inb out pend opening conn dial mgr]. destruct Hs as (H1 & H2 & H3 & H4 & H5).
+      unfold ps_inv in *. cbn in *. subst opening.
+      destruct o1; cbn; pinv.
+    - (* POutFail *)
+      unfold outbound_failed. destruct (ps_opening s) eqn:Eop; [|exact Hs].
+      destruct s as [inb out pend opening conn dial mgr]. destruct Hs as (H1 & H2 & H3 & H4 & H5).
+      unfold ps_inv in *. cbn in *. subst opening. pinv.
+    - (* POutSet *)
+      apply ps_inv_set_out; [exact Hs|]. destruct (ps_out s) eqn:Eo; [|congruence].
+      intros _ E. destruct Hs as (_ & _ & H3 & _). apply H3 in E. destruct E as (_ & E & _). congruence.
+    - (* PConnClose *)
+      unfold conn_closed. destruct (ps_conn s =? 0); [exact Hs|].
+      unfold ps_inv. cbn. pinv.
+    - (* PConnect *)
+      unfold conn_established. destruct (ps_conn s =? 0) eqn:E; [|exact Hs].
+      apply N.eqb_eq in E.
+      destruct s as [inb out pend opening conn dial mgr]. destruct Hs as (H1 & H2 & H3 & H4 & H5).
+      unfold ps_inv in *. cbn in *. subst conn. destruct (H3 eq_refl) as (-> & -> & ->).
+      destruct dial; cbn; pinv.
+    - (* PKill *)
+      unfold conn_killed. destruct (ps_conn s =? 1) eqn:E; [|exact Hs].
+      apply N.eqb_eq in E.
+      destruct s as [inb out pend opening conn dial mgr]. destruct Hs as (H1 & H2 & H3 & H4 & H5).
+      unfold ps_inv in *. cbn in *. subst conn. pinv.
+    - (* PDialFail *)
+      unfold dial_failed. destruct (ps_dial s) eqn:E; [|exact Hs].
+      destruct s as [inb out pend opening conn dial mgr]. destruct Hs as (H1 & H2 & H3 & H4 & H5).
+      unfold ps_inv in *. cbn in *. subst dial. pinv.
+    - (* PForce *)
+      destruct s as [inb out pend opening conn dial mgr]. exact Hs.
+  Qed.
+
+  Lemma run_peer_inv :
+    forall es s, ps_inv s -> ps_inv (fst (fst (run_peer s es))).
+  Proof.
+    induction es as [|e t IH]; intros s Hs; [exact Hs|].
+    cbn [Model.run_peer]. pose proof (ps_inv_step s e Hs) as H1.
+    destruct (peer_step s e) as [s1 [evs [done part]]]. cbn [fst] in H1.
+    specialize (IH s1 H1). destruct (run_peer s1 t) as [[s2 evs2] done2]. exact IH.
+  Qed.
+
+  (* for every history: a queue is never left without something the service will answer *)
+  Lemma no_stuck_queue :
+    forall es, let s := fst (fst (run_peer ps_init es)) in
+      ps_pend s <> [] -> ps_opening s = true \/ ps_dial s = true.
+  Proof. intros es s H. apply (run_peer_inv es ps_init ps_inv_init). exact H. Qed.
+
+  (* ... and each of the answers empties it or moves it on: SubstreamOpened / SubstreamOpenFailure
+     for the requested substream, DialFailure, ConnectionClosed empty the queue;
+     ConnectionEstablished turns the dial into a substream request *)
+  Lemma answers_resolve :
+    forall s, ps_inv s ->
+      (ps_opening s = true ->
+         (forall c, ps_pend (fst (peer_step s (POutOpen c))) = [] /\
+                    ps_opening (fst (peer_step s (POutOpen c))) = false) /\
+         ps_pend (fst (peer_step s POutFail)) = [] /\ ps_opening (fst (peer_step s POutFail)) = false) /\
+      (ps_dial s = true ->
+         ps_pend (fst (peer_step s PDialFail)) = [] /\ ps_dial (fst (peer_step s PDialFail)) = false /\
+         (ps_conn s = 0 -> ps_opening (fst (peer_step s PConnect)) = true /\
+                           ps_pend (fst (peer_step s PConnect)) = ps_pend s)) /\
+      (ps_conn s <> 0 -> ps_pend (fst (peer_step s PConnClose)) = []).
+  Proof.
+    intros s Hs. split; [|split].
+    - intros Ho. split; [intros c|]; cbn [Model.peer_step].
+      + unfold outbound_opened. rewrite Ho.
+        destruct (write_actions mb mm c (ps_pend s)) as [[[d1 p1] c1] o1]. destruct o1; split; reflexivity.
+      + unfold outbound_failed. rewrite Ho. split; reflexivity.
+    - intros Hd. cbn [Model.peer_step]. unfold dial_failed, conn_established. rewrite Hd.
+      split; [reflexivity|]. split; [reflexivity|]. intros E. rewrite E. cbn. split; reflexivity.
+    - intros Hc. cbn [Model.peer_step fst]. unfold conn_closed.
+      destruct (ps_conn s =? 0) eqn:E; [apply N.eqb_eq in E; contradiction|reflexivity].
+  Qed.
+
+  (* ---- sending to a peer that is gone ---- *)
+
+  (* no connection, and the manager knows no address (or claims to be connected): the command is
+     dropped on the spot — nothing written, nothing queued, nothing reported *)
+  Lemma send_to_gone_peer_dropped :
+    forall s a, ps_inv s -> ps_conn s <> 1 -> ps_pend s = [] -> (ps_mgr s = 0 \/ ps_mgr s = 2) ->
+      ps_out s = None ->
+      peer_step s (PSend a) = (s, ([], ([], 0))).
+  Proof.
+    intros [inb out pend opening conn dial mgr] a Hs Hc Hp Hm Ho. cbn in *. subst pend out.
+    unfold send_action, queue_action, open_or_dial. cbn.
+    destruct (conn =? 1) eqn:E; [apply N.eqb_eq in E; contradiction|].
+    destruct Hm as [-> | ->]; reflexivity.
+  Qed.
+
+  (* the manager accepts the dial: the command is parked; when the connection is reported and the
+     substream opens (healthy), everything parked is written, in order *)
+  Lemma send_to_dialable_peer_parked :
+    forall s acts, Forall (action_ok mm) acts ->
+      ps_conn s = 0 -> ps_pend s = [] -> ps_out s = None -> ps_dial s = false -> ps_opening s = false ->
+      (ps_mgr s = 1 \/ ps_mgr s = 3) -> acts <> [] ->
+      let '(s1, _, done) := run_peer s (map PSend acts ++ [PConnect; POutOpen None]) in
+      done = flat_map (action_msgs mb mm) acts /\ ps_pend s1 = [] /\ ps_out s1 = Some None.
+  Proof.
+    intros [inb out pend opening conn dial mgr] acts Hmm Hc Hp Ho Hd Hop Hm Hne. cbn in *. subst.
+    destruct acts as [|a acts]; [congruence|]. clear Hne.
+    assert (Hpark : forall l q, q <> [] -> Forall (action_ok mm) (q ++ l) ->
+              run_peer (mkPS inb None q false 0 true mgr) (map PSend l ++ [PConnect; POutOpen None]) =
+              (mkPS inb (Some None) [] false 1 false mgr, [], flat_map (action_msgs mb mm) (q ++ l))).
+    { induction l as [|x l IH]; intros q Hq Hok.
+      - cbn [map app Model.run_peer Model.peer_step]. unfold conn_established, outbound_opened. simpl.
+        rewrite app_nil_r in Hok. rewrite write_actions_healthy by exact Hok. simpl.
+        rewrite !app_nil_r. reflexivity.
+      - cbn [map app Model.run_peer Model.peer_step]. unfold send_action. cbn.
+        unfold queue_action. cbn. destruct q as [|y q]; [congruence|]. cbn. unfold set_pend. cbn.
+        change (y :: q ++ [x]) with ((y :: q) ++ [x]).
+        rewrite (IH ((y :: q) ++ [x])); [|apply app_not_nil|rewrite <- app_assoc; exact Hok].
+        rewrite <- app_assoc. reflexivity. }
+    cbn [map app Model.run_peer Model.peer_step]. unfold send_action. cbn.
+    unfold queue_action, open_or_dial. simpl.
+    assert (Em : (mgr =? 1) || (mgr =? 3) = true) by (destruct Hm as [-> | ->]; reflexivity).
+    rewrite Em. unfold set_dial, set_pend. simpl. rewrite (Hpark acts [a]) by (try discriminate; exact Hmm). simpl.
+    repeat split; reflexivity.
+  Qed.
+
+  (* the dial fails instead: everything parked is dropped, nothing is written or reported *)
+  Lemma dial_failure_drops_parked :
+    forall s, ps_dial s = true ->
+      peer_step s PDialFail = (set_pend (set_dial s false) [], ([], ([], 0))).
+  Proof. intros s H. cbn [Model.peer_step]. unfold dial_failed. rewrite H. reflexivity. Qed.
+
+  (* ---- a request the codec refuses ---- *)
+
+  (* The real control flow for a request whose one message is longer than the limit (OBSERVATION,
+     requests are outside the property text): send_request fails without writing; an established
+     substream is dropped for it and a new one requested; the commands given meanwhile queue up
+     behind the request; on the new substream the request is refused again and the loop drops the
+     substream together with the whole queue.  Nothing is written, nothing is reported. *)
+  Lemma oversized_request_drops_queue :
+    forall s c2 cids acts, mm < request_len cids ->
+      ps_pend s = [] -> ps_opening s = false -> ps_conn s = 1 ->
+      run_peer s (PSend (ARequest cids) :: map PSend acts ++ [POutOpen c2]) = (set_out s None, [], []).
+  Proof.
+    intros [inb out pend opening conn dial mgr] c2 cids acts Hbig Hp Hop Hc. cbn in *. subst.
+    assert (Hq : forall l q',
+              run_peer (mkPS inb None (ARequest cids :: q') true 1 dial mgr) (map PSend l ++ [POutOpen c2]) =
+              (mkPS inb None [] false 1 dial mgr, [], [])).
+    { induction l as [|x l IH]; intros q'.
+      - cbn [map app Model.run_peer Model.peer_step]. unfold outbound_opened.
+        cbn [ps_opening ps_pend]. cbn [write_actions]. rewrite oversized_request_refused by exact Hbig.
+        reflexivity.
+      - cbn [map app Model.run_peer Model.peer_step]. unfold send_action. cbn [ps_out].
+        unfold queue_action. cbn [ps_pend set_pend ps_inb ps_out ps_opening ps_conn ps_dial ps_mgr app].
+        unfold set_pend. cbn [ps_pend ps_inb ps_out ps_opening ps_conn ps_dial ps_mgr app].
+        rewrite IH. reflexivity. }
+    cbn [Model.run_peer Model.peer_step]. unfold send_action. cbn [ps_out].
+    destruct out as [c|].
+    - rewrite oversized_request_refused by exact Hbig.
+      unfold queue_action, open_or_dial, set_out, set_pend, set_opening.
+      cbn [ps_pend ps_inb ps_out ps_opening ps_conn ps_dial ps_mgr app]. change (1 =? 1) with true. cbv iota.
+      rewrite Hq. reflexivity.
+    - unfold queue_action, open_or_dial, set_out, set_pend, set_opening.
+      cbn [ps_pend ps_inb ps_out ps_opening ps_conn ps_dial ps_mgr app]. change (1 =? 1) with true. cbv iota.
+      rewrite Hq. reflexivity.
+  Qed.
+
+  (* ---- a send that fails half-way is retried whole ---- *)
+
+  (* the action is queued again as it was; what had been written before the failure is written
+     again on the next substream (the receiver of both substreams sees those messages twice) *)
+  Lemma failed_send_retried_whole :
+    forall s c a done part c', action_ok mm a ->
+      ps_out s = Some c -> ps_pend s = [] -> ps_conn s = 1 ->
+      write_msgs mm c (action_msgs mb mm a) = (done, part, c', false) ->
+      let '(s1, _, written) := run_peer s [PSend a; POutOpen None] in
+      written = done ++ action_msgs mb mm a /\ ps_out s1 = Some None /\ ps_pend s1 = [].
+  Proof.
+    intros [inb out pend opening conn dial mgr] c a done part c' Hmm Ho Hp Hc Hw. cbn in *. subst.
+    cbn [Model.run_peer Model.peer_step]. unfold send_action. cbn. rewrite Hw.
+    unfold queue_action, open_or_dial. cbn. change (1 =? 1) with true. cbn. unfold outbound_opened. cbn.
+    rewrite write_msgs_healthy by (apply action_msgs_within_limit; exact Hmm). cbn. rewrite !app_nil_r. repeat split; reflexivity.
+  Qed.
+
+  (* ---- the node: peers do not interfere ---- *)
+
+  Lemma set_ps_other :
+    forall st p q s, p <> q -> nth q (set_ps st p s) ps_init = nth q st ps_init.
+  Proof.
+    induction st as [|h t IH]; intros p q s Hne; [reflexivity|].
+    destruct p, q; cbn [set_ps nth]; try congruence; try reflexivity. apply IH. congruence.
+  Qed.
+
+  (* an operation about peer p leaves the loop's state for every other peer untouched, whatever
+     it writes goes to p's substream, and whatever it reports is attributed to p *)
+  Lemma node_step_frame :
+    forall st p e q, q <> p -> get_ps (fst (node_step st (p, e))) q = get_ps st q.
+  Proof.
+    intros st p e q Hne. unfold Model.node_step. cbn [fst snd].
+    destruct (peer_step (get_ps st p) e) as [s' o]. cbn [fst]. unfold get_ps.
+    apply set_ps_other. intros E. apply Hne. apply N2Nat.inj. symmetry. exact E.
+  Qed.
+
+  Lemma run_node_events_in :
+    forall ops st p ev, In (p, ev) (snd (fst (run_node_ops st ops))) ->
+      exists m, In (p, PInFrame m) ops /\ In ev (msg_events D digest m).
+  Proof.
+    induction ops as [|[q e] t IH]; intros st p ev H; [destruct H|].
+    cbn [Model.run_node_ops] in H. unfold Model.node_step in H. cbn [fst snd] in H.
+    destruct (peer_step (get_ps st q) e) as [s1 [evs [done part]]] eqn:E1.
+    destruct (run_node_ops (set_ps st (N.to_nat q) s1) t) as [[st2 evs2] done2] eqn:E2.
+    cbn [fst snd] in H. apply in_app_or in H. destruct H as [H|H].
+    - apply in_map_iff in H. destruct H as (x & Hx & Hin). inversion Hx; subst.
+      assert (Hne : evs <> []) by (intros ->; destruct Hin).
+      destruct (events_only_from_frames _ _ _ _ _ E1 Hne) as (m & -> & _ & -> & _).
+      exists m. split; [left; reflexivity|exact Hin].
+    - specialize (IH (set_ps st (N.to_nat q) s1) p ev). rewrite E2 in IH. cbn [fst snd] in IH.
+      destruct (IH H) as (m & Hm & He). exists m. split; [right; exact Hm|exact He].
+  Qed.
+
+  (* whatever happens at the node — any number of peers, connections coming and going, commands,
+     failures, frames in any order — every block reported to the user hashes to its CID *)
+  Lemma node_blocks_certified :
+    forall ops st p ev c d,
+      In (p, ev) (snd (fst (run_node_ops st ops))) -> In (c, d) (event_blocks D ev) ->
+      digest (c_code c) d = Some (c_digest c) /\ cid_valid c /\ (length (c_digest c) <= 64)%nat.
+  Proof.
+    intros ops st p ev c d H Hb. apply run_node_events_in in H. destruct H as (m & _ & Hev).
+    assert (Hin : In (c, d) (flat_map (event_blocks D) (msg_events D digest m))).
+    { apply in_flat_map. exists ev. split; assumption. }
+    apply msg_blocks_certified in Hin. destruct Hin as (pb & _ & H).
+    apply self_certifying in H. destruct H as (_ & p0 & _ & Hd & Hc & _ & _ & Hl & Hv).
+    rewrite Hc. repeat split; assumption.
+  Qed.
+
+  Lemma run_node_written_within_limit :
+    forall ops st, Forall (fun pm => omsg_len (snd pm) <= mm) (snd (run_node_ops st ops)).
+  Proof.
+    induction ops as [|[q e] t IH]; intros st; [constructor|].
+    cbn [Model.run_node_ops]. unfold Model.node_step. cbn [fst snd].
+    destruct (peer_step (get_ps st q) e) as [s1 [evs [done part]]] eqn:E1.
+    specialize (IH (set_ps st (N.to_nat q) s1)).
+    destruct (run_node_ops (set_ps st (N.to_nat q) s1) t) as [[st2 evs2] done2]. cbn [snd] in *.
+    apply Forall_app. split; [|exact IH].
+    apply written_within_limit in E1. apply Forall_forall. intros pm Hpm.
+    apply in_map_iff in Hpm. destruct Hpm as (m & <- & Hm). cbn [snd].
+    rewrite Forall_forall in E1. apply E1. exact Hm.
+  Qed.
+  (* ---- provenance of what is written ---- *)
+
+  Lemma queue_action_pend :
+    forall (P : action -> Prop) s a, Forall P (ps_pend s) -> P a -> Forall P (ps_pend (queue_action s a)).
+  Proof.
+    intros P [inb out pend opening conn dial mgr] a H Ha. unfold queue_action, open_or_dial. cbn in *.
+    assert (Hq : Forall P (pend ++ [a])) by (apply Forall_app; split; [exact H|constructor; [exact Ha|constructor]]).
+    destruct pend as [|x pend]; cbn; [|exact Hq].
+    destruct (conn =? 1); cbn; [exact Hq|]. destruct ((mgr =? 1) || (mgr =? 3)); cbn; [exact Hq|constructor].
+  Qed.
+
+  Lemma peer_step_pend_src :
+    forall (P : action -> Prop) s e s' o, peer_step s e = (s', o) ->
+      Forall P (ps_pend s) -> (forall a, e = PSend a -> P a) -> Forall P (ps_pend s').
+  Proof.
+    intros P s e s' o H Hp He. destruct e; cbn [Model.peer_step] in H.
+    - inversion H; subst. destruct (ps_conn s =? 0); [exact Hp|destruct s; exact Hp].
+    - inversion H; subst. exact Hp.
+    - inversion H; subst. destruct s; exact Hp.
+    - unfold send_action in H. destruct (ps_out s) as [c|].
+      + destruct (write_msgs mm c (action_msgs mb mm a)) as [[[d1 p1] c1] o1]. destruct o1; inversion H; subst.
+        * destruct s; exact Hp.
+        * apply queue_action_pend; [destruct s; exact Hp|apply He; reflexivity].
+      + inversion H; subst. apply queue_action_pend; [exact Hp|apply He; reflexivity].
+    - unfold outbound_opened in H. destruct (ps_opening s).
+      + destruct (write_actions mb mm c (ps_pend s)) as [[[d1 p1] c1] o1]. inversion H; subst.
+        destruct o1; destruct s; constructor.
+      + inversion H; subst. exact Hp.
+    - inversion H; subst. unfold outbound_failed. destruct (ps_opening s); [destruct s; constructor|exact Hp].
+    - inversion H; subst. destruct s; exact Hp.
+    - inversion H; subst. unfold conn_closed. destruct (ps_conn s =? 0); [exact Hp|constructor].
+    - inversion H; subst. unfold conn_established. destruct (ps_conn s =? 0); [|exact Hp].
+      destruct (ps_dial s); destruct s; exact Hp.
+    - inversion H; subst. unfold conn_killed. destruct (ps_conn s =? 1); [destruct s; exact Hp|exact Hp].
+    - inversion H; subst. unfold dial_failed. destruct (ps_dial s); [destruct s; constructor|exact Hp].
+    - inversion H; subst. destruct s; exact Hp.
+  Qed.
+
+  Lemma peer_step_written_src :
+    forall (P : action -> Prop) s e s' evs done part, peer_step s e = (s', (evs, (done, part))) ->
+      Forall P (ps_pend s) -> (forall a, e = PSend a -> P a) ->
+      Forall (fun m => exists a, P a /\ In m (action_msgs mb mm a)) done.
+  Proof.
+    intros P s e s' evs done part H Hp He. destruct e; cbn [Model.peer_step] in H;
+      try (inversion H; subst; constructor).
+    - unfold send_action in H. destruct (ps_out s) as [c|].
+      + destruct (write_msgs mm c (action_msgs mb mm a)) as [[[d1 p1] c1] o1] eqn:E.
+        apply write_msgs_spec in E. destruct E as (r & E & _).
+        assert (Hd : Forall (fun m => exists a0, P a0 /\ In m (action_msgs mb mm a0)) d1).
+        { apply Forall_forall. intros m Hm. exists a. split; [apply He; reflexivity|].
+          rewrite E. apply in_or_app. left. exact Hm. }
+        destruct o1; inversion H; subst; exact Hd.
+      + inversion H; subst. constructor.
+    - unfold outbound_opened in H. destruct (ps_opening s).
+      + destruct (write_actions mb mm c (ps_pend s)) as [[[d1 p1] c1] o1] eqn:E.
+        apply write_actions_spec in E. destruct E as (r & E & _). inversion H; subst.
+        apply Forall_forall. intros m Hm.
+        assert (Hin : In m (flat_map (action_msgs mb mm) (ps_pend s))) by (rewrite E; apply in_or_app; left; exact Hm).
+        apply in_flat_map in Hin. destruct Hin as (a & Ha & Hma). exists a. split; [|exact Hma].
+        rewrite Forall_forall in Hp. apply Hp. exact Ha.
+      + inversion H; subst. constructor.
+  Qed.
+
+  Lemma run_peer_written_src :
+    forall (all : list pev) es s,
+      (forall e, In e es -> In e all) -> Forall (fun a => In (PSend a) all) (ps_pend s) ->
+      Forall (fun m => exists a, In (PSend a) all /\ In m (action_msgs mb mm a)) (snd (run_peer s es)).
+  Proof.
+    intros all. induction es as [|e t IH]; intros s Hsub Hp; [constructor|].
+    cbn [Model.run_peer]. destruct (peer_step s e) as [s1 [evs [done part]]] eqn:E1.
+    assert (He : forall a, e = PSend a -> In (PSend a) all) by (intros a ->; apply Hsub; left; reflexivity).
+    pose proof (peer_step_pend_src _ _ _ _ _ E1 Hp He) as Hp1.
+    pose proof (peer_step_written_src _ _ _ _ _ _ _ E1 Hp He) as Hd.
+    specialize (IH s1 (fun x Hx => Hsub x (or_intror Hx)) Hp1).
+    destruct (run_peer s1 t) as [[s2 evs2] done2]. cbn [snd] in *. apply Forall_app. split; assumption.
+  Qed.
+
+  (* nothing is written that the user did not ask to send to this peer *)
+  Lemma written_only_commanded :
+    forall es m, In m (snd (run_peer ps_init es)) ->
+      exists a, In (PSend a) es /\ In m (action_msgs mb mm a).
+  Proof.
+    intros es m H.
+    pose proof (run_peer_written_src es es ps_init (fun e He => He) (Forall_nil _)) as HF.
+    rewrite Forall_forall in HF. apply HF. exact H.
+  Qed.
+
+
+  Lemma set_ps_get :
+    forall st p s, nth p (set_ps st p s) ps_init = s \/ set_ps st p s = st.
+  Proof.
+    induction st as [|h t IH]; intros p s; [right; reflexivity|].
+    destruct p; cbn [set_ps nth]; [left; reflexivity|].
+    destruct (IH p s) as [H|H]; [left; exact H|right; rewrite H; reflexivity].
+  Qed.
+
+  Lemma node_step_pend_src :
+    forall (P : N -> action -> Prop) st p e st' o, node_step st (p, e) = (st', o) ->
+      (forall q, Forall (P q) (ps_pend (get_ps st q))) -> (forall a, e = PSend a -> P p a) ->
+      forall q, Forall (P q) (ps_pend (get_ps st' q)).
+  Proof.
+    intros P st p e st' o H Hinv He q. unfold Model.node_step in H. cbn [fst snd] in H.
+    destruct (peer_step (get_ps st p) e) as [s' o'] eqn:E. inversion H; subst. clear H.
+    destruct (N.eq_dec q p) as [->|Hne].
+    - unfold get_ps at 1. destruct (set_ps_get st (N.to_nat p) s') as [-> | ->].
+      + eapply peer_step_pend_src; [exact E|apply Hinv|exact He].
+      + apply Hinv.
+    - unfold get_ps at 1. rewrite set_ps_other; [apply Hinv|].
+      intros E2. apply Hne. apply N2Nat.inj. symmetry. exact E2.
+  Qed.
+
+  Lemma run_node_written_src :
+    forall (all : list (N * pev)) ops st,
+      (forall x, In x ops -> In x all) ->
+      (forall q, Forall (fun a => In (q, PSend a) all) (ps_pend (get_ps st q))) ->
+      Forall (fun pm => exists a, In (fst pm, PSend a) all /\ In (snd pm) (action_msgs mb mm a))
+             (snd (run_node_ops st ops)).
+  Proof.
+    intros all. induction ops as [|[p e] t IH]; intros st Hsub Hinv; [constructor|].
+    cbn [Model.run_node_ops]. destruct (node_step st (p, e)) as [st1 [evs [done part]]] eqn:E1.
+    assert (He : forall a, e = PSend a -> In (p, PSend a) all) by (intros a ->; apply Hsub; left; reflexivity).
+    pose proof (node_step_pend_src (fun q a => In (q, PSend a) all) _ _ _ _ _ E1 Hinv He) as Hinv1.
+    specialize (IH st1 (fun x Hx => Hsub x (or_intror Hx)) Hinv1).
+    destruct (run_node_ops st1 t) as [[st2 evs2] done2]. cbn [snd fst] in *.
+    apply Forall_app. split; [|exact IH].
+    unfold Model.node_step in E1. cbn [fst snd] in E1.
+    destruct (peer_step (get_ps st p) e) as [s' [evs' [done' part']]] eqn:E. inversion E1; subst.
+    pose proof (peer_step_written_src (fun a => In (p, PSend a) all) _ _ _ _ _ _ E (Hinv p) He) as Hd.
+    apply Forall_forall. intros pm Hpm. apply in_map_iff in Hpm. destruct Hpm as (m & <- & Hm).
+    cbn [fst snd]. rewrite Forall_forall in Hd. apply Hd. exact Hm.
+  Qed.
+
+  (* at the node: what is written to a peer's substream is a message of a command the user gave
+     for that peer — nothing is invented, nothing leaks from one peer to another *)
+  Lemma node_written_only_commanded :
+    forall ops st, (forall q, ps_pend (get_ps st q) = []) ->
+      forall p m, In (p, m) (snd (run_node_ops st ops)) ->
+        exists a, In (p, PSend a) ops /\ In m (action_msgs mb mm a).
+  Proof.
+    intros ops st H0 p m H.
+    assert (Hinv : forall q, Forall (fun a => In (q, PSend a) ops) (ps_pend (get_ps st q)))
+      by (intros q; rewrite H0; constructor).
+    pose proof (run_node_written_src ops ops st (fun x Hx => Hx) Hinv) as HF.
+    rewrite Forall_forall in HF. apply (HF (p, m)). exact H.
+  Qed.
+End NodeProofs.
